@@ -4,7 +4,12 @@ parts of class Split it uses) in oslo_utils/timeutils.py.
 A copy-and-extend of the py2gal idea for a *stateful* class whose methods call each other,
 read a clock and raise.  Every method `m` becomes
 
-    gen_m clk _state _started_at _stopped_at _splits _duration tick args : gst * res T
+    gen_m T N clk _state _started_at _stopped_at _splits _duration tick args : gst T * res R
+
+generic in the number type T and its operations N : num T (Base/C13_Types.v): 0.0 is `n_zero N`, a - b is
+`n_sub N a b`, a > b / a >= b are `n_gtb N a b` / `n_geb N a b` (< and <= swap the operands), max / min are
+`n_max N` / `n_min N` (defined from > as CPython does).  The same text is the exact-arithmetic model at T := Z
+and the binary64 model at T := float64 (Base/PyFloat.v); any other numeric constant or operator is refused.
 
 i.e. it returns the object's fields AS THEY ARE when the call ends — also when it ends by
 raising (so "an illegal call leaves the watch as it was" is a statement about the
@@ -31,16 +36,16 @@ SRC = 'oslo_utils/timeutils.py'
 FIELDS = [('_state', 'ostate'), ('_started_at', 'optint'), ('_stopped_at', 'optint'),
           ('_splits', 'splits'), ('_duration', 'optint')]
 FIELD_TY = dict(FIELDS)
-COQ_TY = {'int': 'Z', 'bool': 'bool', 'none': 'unit', 'self': 'unit', 'optint': 'option Z', 'ostate': 'ostate',
-          'splits': 'list split', 'split': 'split', 'slit': 'bytes', 'optobj': 'option unit', 'obj': 'unit', 'optbool': 'option bool'}
+COQ_TY = {'int': 'T', 'bool': 'bool', 'none': 'unit', 'self': 'unit', 'optint': 'option T', 'ostate': 'ostate',
+          'splits': 'list (split T)', 'split': 'split T', 'slit': 'bytes', 'optobj': 'option unit', 'obj': 'unit', 'optbool': 'option bool'}
 EXNS = {'RuntimeError', 'ValueError', 'TypeError', 'IndexError', 'KeyError', 'AttributeError', 'OverflowError'}
-RESERVED = {'clk', 'tt', 'Some', 'None', 'Ok', 'Exn', 'fun', 'let', 'in', 'match', 'with', 'end', 'if', 'then', 'else',
+RESERVED = {'clk', 'T', 'N', 'tt', 'Some', 'None', 'Ok', 'Exn', 'fun', 'let', 'in', 'match', 'with', 'end', 'if', 'then', 'else',
             'forall', 'exists', 'Type', 'Prop', 'Set', 'fix', 'as', 'return', 'nil', 'cons', 'true', 'false', 'S', 'O'}
 
 STATE = '(self__state, self__started_at, self__stopped_at, self__splits, self__duration, self_tick)'
 STATE_ARGS = 'self__state self__started_at self__stopped_at self__splits self__duration self_tick'
-STATE_PARAMS = ('(self__state : ostate) (self__started_at : option Z) (self__stopped_at : option Z) '
-                '(self__splits : list split) (self__duration : option Z) (self_tick : nat)')
+STATE_PARAMS = ('(self__state : ostate) (self__started_at : option T) (self__stopped_at : option T) '
+                '(self__splits : list (split T)) (self__duration : option T) (self_tick : nat)')
 
 class Unsupported(Exception):
     pass
@@ -116,8 +121,8 @@ class MethodTr:
             v = e.value
             if isinstance(v, bool): return k('true' if v else 'false', 'bool')
             if isinstance(v, (int, float)):
-                if v != int(v): raise Unsupported('non-integral constant %r' % (v,))
-                return k('(%d)' % int(v), 'int')
+                if v != 0 or str(v).startswith('-'): raise Unsupported('numeric constant %r (only 0 / 0.0 are translated)' % (v,))
+                return k('(n_zero N)', 'int')
             if v is None: return k('None', 'nonelit')
             raise Unsupported('constant %r' % (v,))
         if isinstance(e, ast.Name):
@@ -133,26 +138,25 @@ class MethodTr:
             if e.attr not in self.ctx.split_props: raise Unsupported('attribute .' + e.attr)
             def kk(t, ty):
                 if ty != 'split': raise Unsupported('.%s of a %s' % (e.attr, ty))
-                return k('(%s %s)' % (self.ctx.split_props[e.attr], t), 'int')
+                return k('(%s T %s)' % (self.ctx.split_props[e.attr], t), 'int')
             return self.ev(e.value, env, kk)
         if isinstance(e, ast.UnaryOp) and isinstance(e.op, ast.Not):
             def kk(t, ty):
                 if ty != 'bool': raise Unsupported('not on a %s (truthiness is not translated)' % ty)
                 return k('(negb %s)' % t, 'bool')
             return self.ev(e.operand, env, kk)
-        if isinstance(e, ast.UnaryOp) and isinstance(e.op, ast.USub):
-            return self.ev(e.operand, env, lambda t, ty: self.num(t, ty, env, lambda a: k('(- %s)' % a, 'int')))
         if isinstance(e, ast.BinOp) and isinstance(e.op, (ast.Add, ast.Sub)):
             op = '+' if isinstance(e.op, ast.Add) else '-'
             def kk(vs):
                 (a, ta), (b, tb) = vs
                 if ta == tb == 'splits' and op == '+': return k('(%s ++ %s)' % (a, b), 'splits')
-                return self.num(a, ta, env, lambda x: self.num(b, tb, env, lambda y: k('(%s %s %s)' % (x, op, y), 'int')))
+                if op == '+': raise Unsupported('+ on numbers')
+                return self.num(a, ta, env, lambda x: self.num(b, tb, env, lambda y: k('(n_sub N %s %s)' % (x, y), 'int')))
             return self.ev_list([e.left, e.right], env, kk)
         if isinstance(e, ast.Tuple):
             def kk(vs):
                 if any(ty != 'split' for _, ty in vs): raise Unsupported('tuple of non-Split values')
-                return k('[%s]' % '; '.join(t for t, _ in vs) if vs else '(@nil split)', 'splits')
+                return k('[%s]' % '; '.join(t for t, _ in vs) if vs else '(@nil (split T))', 'splits')
             return self.ev_list(list(e.elts), env, kk)
         if isinstance(e, ast.Compare) and len(e.ops) == 1:
             op, right = e.ops[0], e.comparators[0]
@@ -176,11 +180,10 @@ class MethodTr:
                     if not isinstance(op, (ast.Eq, ast.NotEq)): raise Unsupported('ordering of states')
                     txt = '(ostate_eqb %s %s)' % (self.as_ostate(a, ta), self.as_ostate(b, tb))
                     return k(txt if isinstance(op, ast.Eq) else '(negb %s)' % txt, 'bool')
-                cmpop = {ast.Lt: '<?', ast.LtE: '<=?', ast.Gt: '>?', ast.GtE: '>=?', ast.Eq: '=?'}.get(type(op))
-                if cmpop is None and not isinstance(op, ast.NotEq): raise Unsupported('comparison ' + s)
-                def fin(x, y):
-                    return k('(%s %s %s)' % (x, cmpop, y) if cmpop else '(negb (%s =? %s))' % (x, y), 'bool')
-                return self.num(a, ta, env, lambda x: self.num(b, tb, env, lambda y: fin(x, y)))
+                fmt = {ast.Gt: '(n_gtb N %(x)s %(y)s)', ast.Lt: '(n_gtb N %(y)s %(x)s)',
+                       ast.GtE: '(n_geb N %(x)s %(y)s)', ast.LtE: '(n_geb N %(y)s %(x)s)'}.get(type(op))
+                if fmt is None: raise Unsupported('comparison ' + s)
+                return self.num(a, ta, env, lambda x: self.num(b, tb, env, lambda y: k(fmt % {'x': x, 'y': y}, 'bool')))
             return self.ev_list([e.left, right], env, kk)
         if isinstance(e, ast.BoolOp):
             if any(effectful(v) for v in e.values): raise Unsupported('effects under and/or')
@@ -212,18 +215,18 @@ class MethodTr:
         if f in ('max', 'min') and len(e.args) == 2 and not e.keywords:
             def kk(vs):
                 (a, ta), (b, tb) = vs
-                return self.num(a, ta, env, lambda x: self.num(b, tb, env, lambda y: k('(Z.%s %s %s)' % (f, x, y), 'int')))
+                return self.num(a, ta, env, lambda x: self.num(b, tb, env, lambda y: k('(n_%s N %s %s)' % (f, x, y), 'int')))
             return self.ev_list(list(e.args), env, kk)
         if f == 'Split' and len(e.args) == 2 and not e.keywords:
             def kk(vs):
                 (a, ta), (b, tb) = vs
-                return self.num(a, ta, env, lambda x: self.num(b, tb, env, lambda y: k('(gen_Split %s %s)' % (x, y), 'split')))
+                return self.num(a, ta, env, lambda x: self.num(b, tb, env, lambda y: k('(gen_Split T %s %s)' % (x, y), 'split')))
             return self.ev_list(list(e.args), env, kk)
         if f == 'self._delta_seconds' and len(e.args) == 2 and not e.keywords:
             if 'delta_seconds' not in self.ctx.pure: raise Unsupported('_delta_seconds not translated')
             def kk(vs):
                 (a, ta), (b, tb) = vs
-                return self.num(a, ta, env, lambda x: self.num(b, tb, env, lambda y: k('(gen_delta_seconds %s %s)' % (x, y), 'int')))
+                return self.num(a, ta, env, lambda x: self.num(b, tb, env, lambda y: k('(gen_delta_seconds T N %s %s)' % (x, y), 'int')))
             return self.ev_list(list(e.args), env, kk)
         if f.startswith('self.') and f[5:] in self.ctx.methods:
             sig = self.ctx.methods[f[5:]]
@@ -243,7 +246,7 @@ class MethodTr:
                 r, x, v = self.fresh('r__'), self.fresh('e__'), self.fresh('v')
                 self.assigned |= sig.assigned
                 for fld in sig.assigned: env.narrow.pop('self.' + fld, None)
-                return ('match %s clk %s%s with\n| (%s, %s) =>\nmatch %s with Exn %s => %s\n| Ok %s =>\n%s end end'
+                return ('match %s T N clk %s%s with\n| (%s, %s) =>\nmatch %s with Exn %s => %s\n| Ok %s =>\n%s end end'
                         % (sig.coq, STATE_ARGS, ''.join(' ' + a for a in args), STATE, r, r, x, self.raise_(x, env), v, k(v, sig.ret)))
             return self.ev_list(list(e.args), env, kk)
         raise Unsupported('call to ' + f)
@@ -394,7 +397,7 @@ def gen_split(tree, out, ctx):
         stored[st.targets[0].attr] = st.value.id
     if sorted(stored) != ['_elapsed', '_length']: raise GenError('Split.__init__: fields ' + str(sorted(stored)))
     # the record is (sp_elapsed := the value stored in _elapsed, sp_length := the value stored in _length)
-    out.append('Definition gen_Split (elapsed length : Z) : split := mkSplit %s %s.' % (stored['_elapsed'], stored['_length']))
+    out.append('Definition gen_Split (T : Type) (elapsed length : T) : split T := mkSplit %s %s.' % (stored['_elapsed'], stored['_length']))
     for prop in ('elapsed', 'length'):
         p = method(cls, prop)
         if decorators(p) != ['property']: raise GenError('Split.%s is not a plain property' % prop)
@@ -403,7 +406,7 @@ def gen_split(tree, out, ctx):
         if not (len(body) == 1 and isinstance(body[0], ast.Return) and src(body[0].value) in ('self._elapsed', 'self._length')):
             raise GenError('Split.%s: body' % prop)
         proj = {'self._elapsed': 'sp_elapsed', 'self._length': 'sp_length'}[src(body[0].value)]
-        out.append('Definition gen_Split_%s (s : split) : Z := %s s.' % (prop, proj))
+        out.append('Definition gen_Split_%s (T : Type) (s : split T) : T := %s s.' % (prop, proj))
         ctx.split_props[prop] = 'gen_Split_' + prop
 
 # (python name, coq name, [(param, type, default source text, default coq text)], return type, expected decorators)
@@ -440,7 +443,7 @@ def generate():
     failclosed.check_all(FAILCLOSED['generate'])
     tree = repo_ast(SRC)
     out = [HEADER % (SRC, 'tools/gen/gen_C13.py')]
-    out.append('From Coq Require Import ZArith List.\nRequire Import OV.Base.Bytes OV.Base.Py OV.Base.C13_Types.\nImport ListNotations.\nOpen Scope Z_scope.')
+    out.append('From Coq Require Import ZArith List.\nRequire Import OV.Base.Bytes OV.Base.Py OV.Base.C13_Types.\nImport ListNotations.')
     ctx = Ctx()
     # the clock: a module-level name `now` that the methods call (the harness replaces it)
     nows = [n for n in tree.body if isinstance(n, ast.Assign) and any(isinstance(t, ast.Name) and t.id == 'now' for t in n.targets)]
@@ -487,7 +490,7 @@ def generate():
     except Unsupported as e:
         raise GenError('_delta_seconds: ' + str(e))
     if 'Exn' in txt: raise GenError('_delta_seconds may raise')
-    out.append('Definition gen_delta_seconds (earlier later : Z) : Z :=\n%s.' % txt)
+    out.append('Definition gen_delta_seconds (T : Type) (N : num T) (earlier later : T) : T :=\n%s.' % txt)
     ctx.pure.add('delta_seconds')
     for py, coq, params, ret, decos in METHODS:
         fn = method(cls, py)
@@ -505,10 +508,10 @@ def generate():
         except Unsupported as e:
             raise GenError('%s: %s' % (py, e))
         args = ''.join(' (%s : %s)' % (p[0], COQ_TY[p[1]]) for p in real)
-        out.append('Definition %s (clk : nat -> Z) %s%s : gst * res (%s) :=\n%s.' % (coq, STATE_PARAMS, args, COQ_TY[ret], body))
+        out.append('Definition %s (T : Type) (N : num T) (clk : nat -> T) %s%s : gst T * res (%s) :=\n%s.' % (coq, STATE_PARAMS, args, COQ_TY[ret], body))
         for p in real:
             if p[3] is None: continue
-            out.append('Definition %s_default_%s : %s := %s.' % (coq, p[0], COQ_TY[p[1]], p[3]))
+            out.append('Definition %s_default_%s (T : Type) : %s := %s.' % (coq, p[0], COQ_TY[p[1]], p[3]))
         ctx.methods[py] = Sig(coq, [(p[0], p[1], p[3]) for p in real], ret, set(tr.assigned))
     return '\n'.join(out) + '\n'
 
